@@ -110,6 +110,19 @@ impl Tr for Imp {
     async fn tm(&self, x: u32) -> u32 { HERE rt::log("tm"); rt::Yield(1).await; x * self.0 }
 }""", [("2*3", '{ use M::Tr; format!("{:?}", rt::block_on(M::Imp(3).tm(2))) }')], is_async=True, async_trait=True,
                split=[("2*3", '{ use M::Tr; let imp = M::Imp(3); let fut = rt::under_split_parent(|| imp.tm(2)); format!("{:?}", rt::block_on(fut)) }')]))
+    c.append(F("tp", """#[async_trait::async_trait]
+pub trait Tr3 { async fn tp(&self, x: u32) -> u32; }
+pub struct Imp3(pub u32);
+#[async_trait::async_trait]
+impl Tr3 for Imp3 {
+    #[TRACE]
+    async fn tp(&self, x: u32) -> u32 { HERE rt::Yield(x % 4).await; rt::log("tp"); x + self.0 }
+}""", [(str(x), '{ use M::Tr3; format!("{:?}", rt::block_on(M::Imp3(3).tp(%du32))) }' % x) for x in (0, 2, 3)], is_async=True, async_trait=True, eop=True,
+               attr='name = "tp-poll", enter_on_poll = true', lit="tp-poll"))
+    c.append(F("bx", """#[TRACE]
+pub fn bx(x: u32) -> std::pin::Pin<Box<dyn std::future::Future<Output = u32> + Send>> { Box::pin(async move { HERE rt::Yield(x % 3).await; rt::log("bx"); x * 2 }) }""",
+               [(str(x), 'format!("{:?}", rt::block_on(M::bx(%du32)))' % x) for x in (0, 1, 2)], is_async=True, async_trait=True, eop=True,
+               attr='name = "bx-poll", enter_on_poll = true', lit="bx-poll"))
     c.append(F("am", """pub trait Tr2 { fn am(&self, x: u32) -> impl std::future::Future<Output = u32>; }
 pub struct Imp2(pub u32);
 impl Tr2 for Imp2 {
